@@ -10,7 +10,6 @@ use simcore::{pool, Tape, EXIT_HARNESS, EXIT_OK, EXIT_VIOLATION};
 use std::collections::{BTreeMap, HashSet};
 use std::sync::atomic::AtomicBool;
 
-pub const VERIF_DIR: &str = "/verif";
 
 /// One scenario family of a property.
 pub struct Family {
@@ -156,6 +155,8 @@ fn replay_signature(fam: &Family, prop: &str, tape: &[u32], want: Option<&str>) 
 }
 
 fn write_replay(prop: &str, fam_idx: usize, fam: &Family, seed: u64, sig: &str, tape: &[u32], shrink_runs: usize, original_len: usize) -> Result<String, String> {
+    #[allow(non_snake_case)]
+    let VERIF_DIR = simcore::verif_dir();
     let rec = execute(fam, Tape::from_values(tape.to_vec()));
     let viols: Vec<Violation> = (fam.oracle)(&rec).into_iter().filter(|v| v.prop == prop && v.sig == sig).collect();
     let detail = viols.first().map_or(String::new(), |v| v.detail.clone());
@@ -203,6 +204,8 @@ pub fn profile_name() -> &'static str {
 
 /// Run the check of one property.  Returns the process exit code.
 pub fn run_check(pc: &PropertyCheck, tier: &str, batch_seed: u64) -> i32 {
+    #[allow(non_snake_case)]
+    let VERIF_DIR = simcore::verif_dir();
     let started = std::time::Instant::now();
     let findings = match Findings::load(&format!("{VERIF_DIR}/known-findings.jsonl")) {
         Ok(f) => f,
